@@ -347,7 +347,17 @@ func (c *Confirmer) confirmOne(j confirmJob, in *Input, r *Result, dir string, k
 	what := fmt.Sprintf("%s(%q)", entryName(in), clip(string(in.Text), 80))
 	switch j.kind {
 	case "hang":
-		hung := !p1.Returned && !p2.Returned && p1.Frame1 == p1.Frame2 && p2.Frame1 == p2.Frame2 && p1.Frame1 == p2.Frame1
+		// "the same frame in both dumps": the same function when the goroutine
+		// sits in one loop; when it keeps calling state functions (hook events
+		// advance) the frame that stays is the run loop / entry point itself,
+		// i.e. the same goroutine kind is busy in all four dumps.
+		same := func(p *ProbeReport) bool {
+			return p.Kind != "" && p.Kind == p.Kind2 && (p.Frame1 == p.Frame2 || p.Events2 > p.Events1)
+		}
+		hung := !p1.Returned && !p2.Returned && same(p1) && same(p2) && p1.Kind == p2.Kind
+		if hung && strings.HasPrefix(j.feature, "steps:") {
+			sig = core.Sig{Family: "termination", Feature: "hang:scanner-loops-without-consuming-in-" + strings.TrimPrefix(j.feature, "steps:scanner-exceeds-step-bound-in-")}
+		}
 		switch {
 		case hung && len(in.Text) < 4096:
 			ok()
